@@ -162,3 +162,75 @@ def folds_guarded(chk, facts):
         chk.ob(rule, vn, not bad and sites >= 1, "%s with a partial first operand: %d concrete answer(s), each under `!can_error_assuming_well_formed(..)`%s%s" % (vn, sites, " or decided by the request's own principal / resource type" if vn == "Is" else "", "" if not bad else " — except at L%s" % bad),
                where=f.where(bad[0] if bad else None), fn=f.name, key="%s:%s" % (rule, vn))
     chk.floor(rule, "connectives", n, 2)
+
+
+def closure_computed(chk, facts):
+    """Partial entity stores built from user-supplied entities are transitively closed: every constructor hands compute_tc = true to
+    from_entities_map unless its input is an already closed concrete store (from_concrete), and from_entities_map honours the flag."""
+    rule = "C14.CONST"
+    PE = "cedar_policy_core::tpe::entities::PartialEntities::"
+    target = PE + "from_entities_map"
+    g = get_fn(chk, facts, rule, target)
+    if g is None:
+        return
+    n = 0
+    for name in facts.unit_fns("cedar_policy_core.lib"):
+        if not name.startswith("cedar_policy_core::tpe::") or "::test" in name:
+            continue
+        f = facts.fns[name]
+        for b, t in f.calls():
+            if callee(t) != target:
+                continue
+            o = t[2][2] if len(t[2]) > 2 else None
+            v = o[1].get("v") if o is not None and o[0] == "k" else None
+            root = f
+            rootname = name.split("::{closure")[0]
+            rf = facts.fn(rootname) or f
+            closed_input = any(rf.locals[i] == "cedar_policy_core::entities::Entities" for i in range(1, rf.nargs + 1))
+            ok = v == 1 or (v == 0 and closed_input)
+            n += 1
+            chk.ob(rule, short(rootname).split("::")[-1], ok, "%s builds the store with compute_tc = %s%s" % (short(rootname).split("::")[-1], {1: "true", 0: "false"}.get(v, "a non-constant"),
+                   " (input is an already closed concrete store)" if (v == 0 and closed_input) else ("" if ok else " although its input is user-supplied partial entities: indirect ancestors are missing")),
+                   where=f.where(t[1].get("l")), fn=name, key="%s:%s" % (rule, rootname))
+    chk.floor(rule, "constructors of PartialEntities", n, 3)
+    # the flag is honoured
+    tc = [b for b, t in g.calls() if callee(t).endswith("PartialEntities::compute_tc")]
+    guarded = False
+    for b in tc:
+        for d, taken in cfg.guard_edges(g, b):
+            from lib.slice import leaf_producers
+            sw = g.blocks[d]["t"]
+            if sw[1][0] in ("c", "m") and "param:3" in leaf_producers(g, sw[1]) and [str(v) for v, _ in taken] == ["else"]:
+                guarded = True
+    chk.ob(rule, "from_entities_map", bool(tc) and guarded, "from_entities_map computes the closure exactly when asked: %s" % (bool(tc) and guarded), where=g.where(), fn=g.name)
+
+
+def per_policy_typecheck(chk, facts):
+    """policy_residual_map: every policy of the set (every link separately — the typed body depends on the link's own slot types) is
+    validated and typechecked in the request environment linked with ITS slot environment before its residual is built."""
+    from lib import protocol
+    rule = "C14.MUSTPASS.typecheck"
+    f = get_fn(chk, facts, rule, "cedar_policy_core::tpe::policy_residual_map")
+    if f is None:
+        return
+    # (the entity-type / literal validation depends on the template only, so caching it per template would be sound: not required per link)
+    for suffix, what in (("Typechecker::<'a>::typecheck_by_single_request_env", "typechecked"),):
+        sites = [(b, t) for b, t in f.calls() if callee(t).endswith(suffix) or callee(t).endswith(suffix.replace("::<'a>", ""))]
+        ok = False
+        if sites:
+            lp = protocol.loop_of(f, sites[0][0])
+            if lp:
+                head, some = lp
+                ok = head not in cfg.reachable(f, some, cut_blocks={b for b, _ in sites})
+        chk.ob(rule, suffix.split("::")[-1], ok, "every policy (every link) is %s in its own iteration: %s" % (what, ok), where=f.where(sites[0][1][1].get("l") if sites else None), fn=f.name,
+               key="%s:%s" % (rule, suffix.split("::")[-1]))
+    # the environment of the typecheck is linked with this policy's slot environment
+    L = shape.Labels(f, None, None, call_labels=lambda c, t: ["LINKED"] if c.endswith("::link_slot_env") else (["PENV"] if c.endswith("ast::policy::Policy::env") else None))
+    okenv = False
+    for b, t in f.calls():
+        if callee(t).split("::")[-1] == "typecheck_by_single_request_env":
+            labs = set()
+            for o in t[2]:
+                labs |= L.operand_labels(o)
+            okenv = "LINKED" in labs and "PENV" in labs
+    chk.ob(rule, "linked-env", okenv, "the typechecker runs in the request environment linked with the policy's own slot environment: %s" % okenv, where=f.where(), fn=f.name)
